@@ -6,6 +6,7 @@ import (
 	"go/token"
 	"go/types"
 	"os"
+	"regexp/syntax"
 	"sort"
 	"strings"
 
@@ -902,6 +903,17 @@ func indexDischarged(fn *ssa.Function, blk *ssa.BasicBlock, base, index ssa.Valu
 			}
 		}
 	}
+	// 6. sub-match k of a regular expression with a constant pattern: a match that is not nil has
+	// one entry for the whole match and one per capture group
+	if k, ok := index.(*ssa.Const); ok && k.Value != nil && kind == "index" && k.Value.Kind() == constant.Int {
+		if c, ok := base.(*ssa.Call); ok && calleeName(c) == "(*regexp.Regexp).FindStringSubmatch" && len(c.Call.Args) == 2 {
+			if pat, ok := regexPatternOf(c.Call.Args[0]); ok {
+				if re, err := syntax.Parse(pat, syntax.Perl); err == nil && k.Int64() >= 0 && k.Int64() <= int64(re.MaxCap()) && nonNilAt(base, blk) {
+					return true
+				}
+			}
+		}
+	}
 	// 5. a list consumed k elements at a time (for ; len(xs) > 0; xs = xs[k:] { xs[0] … xs[k-1] }):
 	// the length is a multiple of k on entry (a remainder test with an exit on the odd side) and
 	// stays one, so "not empty" means "at least k elements"
@@ -1151,6 +1163,87 @@ func pairedNodeLists(w *World, fn *ssa.Function, a, b ssa.Value) bool {
 		}
 	}
 	return sites > 0
+}
+
+// regexPatternOf: the constant pattern of a compiled regular expression: compiled on the
+// spot, or kept in a package-level variable that is assigned once, by its initialiser.
+func regexPatternOf(v ssa.Value) (string, bool) {
+	switch x := v.(type) {
+	case *ssa.Call:
+		n := calleeName(x)
+		if (n == "regexp.MustCompile") && len(x.Call.Args) == 1 {
+			if k, ok := x.Call.Args[0].(*ssa.Const); ok && k.Value != nil && k.Value.Kind() == constant.String {
+				return constant.StringVal(k.Value), true
+			}
+		}
+	case *ssa.UnOp:
+		g, ok := x.X.(*ssa.Global)
+		if !ok || x.Op != token.MUL || g.Pkg == nil {
+			return "", false
+		}
+		var val ssa.Value
+		n := 0
+		for _, m := range g.Pkg.Members {
+			fn, ok := m.(*ssa.Function)
+			if !ok {
+				continue
+			}
+			for _, f := range withLiterals(fn) {
+				for _, b := range f.Blocks {
+					for _, ins := range b.Instrs {
+						if st, ok := ins.(*ssa.Store); ok && st.Addr == ssa.Value(g) {
+							val = st.Val
+							n++
+							if f.Name() != "init" {
+								return "", false
+							}
+						}
+					}
+				}
+			}
+		}
+		if n == 1 {
+			if c, ok := val.(*ssa.Call); ok {
+				return regexPatternOf(c)
+			}
+		}
+	}
+	return "", false
+}
+
+// nonNilAt: blk is reached only when the list v is not nil.
+func nonNilAt(v ssa.Value, blk *ssa.BasicBlock) bool {
+	for d := blk; d != nil; d = d.Idom() {
+		parent := d.Idom()
+		if parent == nil {
+			break
+		}
+		c, neg := condOf(parent)
+		bo, ok := c.(*ssa.BinOp)
+		if !ok || len(parent.Succs) != 2 || (bo.Op != token.EQL && bo.Op != token.NEQ) {
+			continue
+		}
+		var other ssa.Value
+		if bo.X == v {
+			other = bo.Y
+		} else if bo.Y == v {
+			other = bo.X
+		}
+		k, isK := other.(*ssa.Const)
+		if !isK || !k.IsNil() {
+			continue
+		}
+		onTrue := parent.Succs[0].Dominates(blk) && len(parent.Succs[0].Preds) == 1
+		onFalse := parent.Succs[1].Dominates(blk) && len(parent.Succs[1].Preds) == 1
+		if onTrue == onFalse {
+			continue
+		}
+		notNilOnTrue := (bo.Op == token.NEQ) != neg
+		if notNilOnTrue == onTrue {
+			return true
+		}
+	}
+	return false
 }
 
 // idxEngine: character tests of the lexer (set by c13Index for the duration of the rule).
@@ -1506,11 +1599,76 @@ type posBound struct {
 	fn      *ssa.Function
 	base    ssa.Value
 	assumed map[ssa.Value]bool
+	ltBusy  map[*ssa.Phi]bool
+}
+
+// feasibleEdges: the edges of ph that can have been taken when control is in blk, judged by
+// boolean flags merged in the same block and tested on the way to blk; some reports whether
+// any edge was ruled out.
+func feasibleEdges(ph *ssa.Phi, blk *ssa.BasicBlock) ([]bool, bool) {
+	feas := make([]bool, len(ph.Edges))
+	for i := range feas {
+		feas[i] = true
+	}
+	some := false
+	for d := blk; d != nil && d != ph.Block(); d = d.Idom() {
+		parent := d.Idom()
+		if parent == nil {
+			break
+		}
+		if !ph.Block().Dominates(parent) {
+			break
+		}
+		c, neg := condOf(parent)
+		flag, ok := c.(*ssa.Phi)
+		if !ok || flag.Block() != ph.Block() || len(parent.Succs) != 2 {
+			continue
+		}
+		onTrue := parent.Succs[0].Dominates(blk) && len(parent.Succs[0].Preds) == 1
+		onFalse := parent.Succs[1].Dominates(blk) && len(parent.Succs[1].Preds) == 1
+		if onTrue == onFalse {
+			continue
+		}
+		// the flag must not be redefined between the merge and the test: it is an SSA value, so it is not
+		for i, e := range flag.Edges {
+			k, ok := e.(*ssa.Const)
+			if !ok || k.Value == nil || k.Value.Kind() != constant.Bool {
+				continue
+			}
+			condTrue := constant.BoolVal(k.Value) != neg
+			if condTrue != onTrue {
+				feas[i] = false
+				some = true
+			}
+		}
+	}
+	return feas, some
 }
 
 func (p *posBound) isLen(v ssa.Value) bool { return sameLen(v, p.base) }
 
 func (p *posBound) ltLen(q ssa.Value, blk *ssa.BasicBlock) bool {
+	// a merged position under a test of a flag merged at the same place: only the edges on
+	// which the flag has the tested value count (if !appended { i++ })
+	if ph, ok := q.(*ssa.Phi); ok && !p.ltBusy[ph] {
+		if feas, some := feasibleEdges(ph, blk); some {
+			if p.ltBusy == nil {
+				p.ltBusy = map[*ssa.Phi]bool{}
+			}
+			p.ltBusy[ph] = true
+			all := true
+			for i, e := range ph.Edges {
+				if feas[i] && !p.ltLen(e, ph.Block().Preds[i]) {
+					all = false
+					break
+				}
+			}
+			delete(p.ltBusy, ph)
+			if all {
+				return true
+			}
+		}
+	}
 	for d := blk; d != nil; d = d.Idom() {
 		// the byte at q was read in a dominating block (or earlier in this one)
 		for _, ins := range d.Instrs {
@@ -3019,7 +3177,6 @@ type reviewedSite struct {
 
 // generated once from the reviewed tree (VERIF_DEBUG=counts), then frozen
 var reviewedSiteTable = []reviewedSite{
-	{"lexer:index:call:FindStringSubmatch[#0] index:call:FindStringSubmatch[#0] index:call:FindStringSubmatch[#1] index:call:FindStringSubmatch[#1] slice:call:strings.ReplaceAll[merge]", "lexer/Tokenize", "sub-match indices follow from the capture groups of the constant regex; split of a matched comment has ≥ 1 element; source[i:] with i < len(source) by the loop condition", 5},
 	{"parser:index:context.scopeStack[len-1]", "parser/context.currentScope", "every caller lies below the block routine that pushes a scope before parsing statements (call-graph dominance)", 1},
 	{"parser:slice:call:fmt.Sprintf[#8]", "parser/Parser.parse", "hex digest of SHA-256 has 64 characters (> 7)", 1},
 	{"parser:index:conv(param:string)[#0]", "parser/isPublic", "guarded by len(name) > 0", 1},
